@@ -102,13 +102,15 @@ def weights(points, atcoords, radii, order):
     return cell / cell.sum(axis=1)[:, None]
 
 
-def condition(points, atcoords, order):
+def condition(points, atcoords, order, radii=None):
     """Per-point amplification of coordinate rounding into a weight.
 
     A distance |r-R_A| carries an absolute error eps*X (X = size of the coordinates entering the
     subtraction), mu = (difference of distances)/R_AB therefore eps*X/R_AB, nu = mu + a(1-mu^2) at most
     1.9x that, every switch iteration at most 1.5x, and a weight depends on M-1 cell factors.
-    Returned: M * 1.9 * 1.5^order * (1 + X_p / min R_AB).
+    Returned: M * 1.9 * 1.5^order * (1 + X_p / min R_AB), divided by min(1, sum_B P_B) when ``radii`` is
+    given: the normalisation w_A = P_A / sum_B P_B amplifies the absolute error of the cell functions by
+    1 / sum_B P_B, which is well below 1 inside clusters of many atoms.
     """
     points = np.asarray(points, dtype=float)
     atcoords = np.asarray(atcoords, dtype=float)
@@ -120,7 +122,11 @@ def condition(points, atcoords, order):
     xat = float(np.max(np.abs(atcoords))) if m else 0.0
     xp = np.maximum(np.max(np.abs(points), axis=1), xat) if len(points) else np.zeros(0)
     ratio = xp / rmin if np.isfinite(rmin) else np.zeros_like(xp)
-    return m * 1.9 * 1.5**order * (1.0 + ratio)
+    out = m * 1.9 * 1.5**order * (1.0 + ratio)
+    if radii is not None and len(points):
+        tot = cell_functions(points, atcoords, radii, order).sum(axis=1)
+        out = out / np.clip(tot, 1e-300, 1.0)
+    return out
 
 
 # ---------------------------------------------------------------------------
